@@ -558,8 +558,13 @@ def standard_check(P, tier, seed, replay=None):
 
     def judge(il, ml):
         if getattr(P, 'MODE', 'diff') == 'trace':
-            bad = [l for l in ml if l.startswith('reject')] + [l for l in il if l.startswith('CRASH')]
-            return ('P', bad[0], 'accept') if bad else None
+            # `reject M: …` = the acceptor could not follow the implementation on a model-internal choice
+            # (broken correspondence); any other reject or a crash is a property-level violation
+            bad = [l for l in ml if l.startswith('reject') and not l.startswith('reject M')] + \
+                  [l for l in il if l.startswith('CRASH')]
+            if bad: return ('P', bad[0], 'accept')
+            badm = [l for l in ml if l.startswith('reject M')]
+            return ('M', badm[0], 'accept') if badm else None
         d = first_diff(il, ml)
         return (d[3], d[1], d[2]) if d else None
 
@@ -593,6 +598,9 @@ def standard_check(P, tier, seed, replay=None):
             small = ops
         il = impl_of(small); ml = model_of(small, il) if driver_ok else []
         dd = judge(il, ml) if driver_ok else d
+        if dd is None or dd[0] != 'P':
+            # schedule-dependent: the shrunk case did not reproduce on the final re-run; keep the original input
+            small, dd = ops, d
         fp = P.fingerprint(small, dd) if hasattr(P, 'fingerprint') else default_fingerprint(small, dd)
         body = case_text(0, small) + '# seed=%d case=%d\n# implementation: %s\n# model/spec   : %s\n' % (
             seed, i, dd[1] if dd else d[1], dd[2] if dd else d[2])
